@@ -277,6 +277,7 @@ func (sp *Specs) parseSpecFile(path, pkg string) error {
 			curF, curL, curP, curFT = nil, nil, nil, nil
 			curE = &EventSpec{Pkg: pkg, Kind: f[1], Where: where}
 			r := strings.TrimSpace(strings.TrimPrefix(rest, f[1]))
+			r = " " + r
 			if i := strings.LastIndex(r, " ("); i >= 0 && strings.HasSuffix(r, ")") {
 				for _, v := range strings.FieldsFunc(r[i+2:len(r)-1], func(r rune) bool { return r == ',' || r == ' ' }) {
 					curE.Vars = append(curE.Vars, v)
